@@ -15,6 +15,7 @@ Node forms (e = vector expression, s = scalar expression, c = Python int, A = in
   ['neg', a]                 -a                                     ['cmul'|'cadd'|'csub', c, a, 'l'|'r']  constant on the left/right
   ['stack', [s, ...]]        out = zeros(m, dtype=x); out[i] = s_i  ['stack2', [[s, ..], ..]]  the same for a matrix
   ['reshape', e, (m1, m2)]   e.reshape((m1, m2))                    ['fn', name, a]          smooth element-wise function
+  ['div', a, b]              a / b   (smooth family only)           ['cdiv', c, a, 'l'|'r']  c / a  or  a / c   (smooth family only)
 """
 import itertools
 from fractions import Fraction
@@ -162,6 +163,11 @@ def _run(node, x, B):
         return a * b
     if op == 'pow':
         return run(node[1], x, B) ** node[2]
+    if op == 'div':
+        return run(node[1], x, B) / run(node[2], x, B)
+    if op == 'cdiv':
+        a = run(node[2], x, B)
+        return node[1] / a if node[3] == 'l' else a / node[1]
     if op == 'neg':
         a = run(node[1], x, B)
         return a if B.majorant else -a
@@ -191,6 +197,41 @@ def _run(node, x, B):
     if op == 'fn':
         return B.wrap(B.fn(node[1], run(node[2], x, B)))
     raise KeyError(op)
+
+
+def lay(a, layout, perm=None):
+    """array with the values and shape of ``a`` on a different buffer: C | F | T (transposed view of a C buffer) |
+    perm (axes stored in the order perm) | strided (every second entry of a larger buffer) | reversed (negative strides)"""
+    a = np.asarray(a)
+    if layout in (None, 'C') or a.ndim == 0 or a.size == 0:
+        return np.array(a, order='C', copy=True)
+    if layout == 'F':
+        return np.array(a, order='F', copy=True)
+    if layout == 'T':
+        return np.ascontiguousarray(a.T).T
+    if layout == 'perm':
+        perm = [int(i) for i in perm]
+        return np.ascontiguousarray(a.transpose(perm)).transpose([int(i) for i in np.argsort(perm)])
+    if layout == 'strided':
+        big = np.zeros(tuple(2 * n for n in a.shape), dtype=a.dtype)
+        v = big[tuple(slice(None, None, 2) for _ in a.shape)]
+        v[...] = a
+        return v
+    if layout == 'reversed':
+        sl = tuple(slice(None, None, -1) for _ in a.shape)
+        return np.ascontiguousarray(a[sl])[sl]
+    raise KeyError(layout)
+
+
+@st.composite
+def draw_layout(draw, ndim):
+    """(layout, perm or None); layouts that coincide with C for the rank are reported as C"""
+    l = draw(st.sampled_from(['C', 'C', 'F', 'T', 'T', 'perm', 'strided', 'reversed']))
+    if ndim < 1 or (ndim < 2 and l in ('F', 'T', 'perm')):
+        return 'C', None
+    if l == 'perm':
+        return l, list(draw(st.permutations(list(range(ndim)))))
+    return l, None
 
 
 def walk(o):
@@ -426,8 +467,8 @@ def _smooth_term(draw, N, x, scalar, k):
 def _smooth_expr(draw, N, x, scalar, k, depth):
     if depth == 0:
         return draw(_smooth_term(N, x, scalar, k))
-    ch = draw(st.sampled_from(['term', 'add', 'sub', 'mul', 'mul', 'fn', 'polymul', 'reduce'] if scalar else
-                              ['term', 'add', 'sub', 'mul', 'mul', 'fn', 'polymul', 'smul']))
+    ch = draw(st.sampled_from(['term', 'add', 'sub', 'mul', 'mul', 'fn', 'polymul', 'reduce', 'div', 'div', 'cdiv'] if scalar else
+                              ['term', 'add', 'sub', 'mul', 'mul', 'fn', 'polymul', 'smul', 'div', 'div', 'cdiv']))
     if ch == 'term':
         return draw(_smooth_term(N, x, scalar, k))
     if ch in ('add', 'sub', 'mul'):
@@ -436,6 +477,25 @@ def _smooth_expr(draw, N, x, scalar, k, depth):
         inner = draw(_smooth_expr(N, x, scalar, k, depth - 1))
         val = run(inner, x, _BF)
         return ['fn', draw(st.sampled_from(_admissible(val))), inner]
+    if ch == 'div':
+        # numerator: a polynomial or a smooth expression; denominator bounded away from 0 AT THE POINT, by construction
+        num = draw(st.one_of(poly_scalar(N, draw(st.integers(1, 2)), 1) if scalar else poly_vec(N, k, draw(st.integers(1, 2)), 1),
+                             _smooth_expr(N, x, scalar, k, depth - 1)))
+        den = draw(poly_scalar(N, 1, 1) if scalar else poly_vec(N, k, 1, 1)) if draw(st.booleans()) else draw(_smooth_expr(N, x, scalar, k, depth - 1))
+        val = np.asarray(run(den, x, _BF), dtype=float)
+        if not (np.all(np.abs(val) >= 0.3) and np.all(np.abs(val) <= 50)):
+            den = ['cadd', draw(st.sampled_from([2, 3, -2])), ['fn', 'tanh', den], draw(st.sampled_from(['l', 'r']))]    # |.| in [1, 4]
+        return ['div', num, den]
+    if ch == 'cdiv':
+        inner = draw(_smooth_expr(N, x, scalar, k, depth - 1)) if draw(st.booleans()) else \
+            draw(poly_scalar(N, draw(st.integers(1, 2)), 1) if scalar else poly_vec(N, k, draw(st.integers(1, 2)), 1))
+        side = draw(st.sampled_from(['r', 'r', 'l']))
+        c = draw(st.sampled_from([2, 3, -3, 7, 2.5]))
+        if side == 'l':
+            val = np.asarray(run(inner, x, _BF), dtype=float)
+            if not (np.all(np.abs(val) >= 0.3) and np.all(np.abs(val) <= 50)):
+                inner = ['cadd', 3, ['fn', 'tanh', inner], 'l']
+        return ['cdiv', c, inner, side]
     if ch == 'polymul':
         p = draw(poly_scalar(N, 1, 1)) if scalar else draw(poly_vec(N, k, 1, 1))
         return ['mul', p, draw(_smooth_expr(N, x, scalar, k, depth - 1))]
@@ -451,7 +511,7 @@ def _smooth_expr(draw, N, x, scalar, k, depth):
 @st.composite
 def smooth_program(draw, N, x, out):
     x = np.asarray(x, dtype=float)
-    depth = draw(st.sampled_from([0, 1, 1, 2]))
+    depth = draw(st.sampled_from([0, 1, 1, 2, 2]))
     if out == 'scalar':
         return draw(_smooth_expr(N, x, True, 1, depth))
     if out == 'vector':
